@@ -36,9 +36,9 @@ M = [
   [(U, "            let new = if old.strong() == 0 {\n                old.add_strong(1)\n            } else {", "            let new = if old.strong() == 0 {\n                return true;\n            } else {")]),
  ("K01", "control", "bags expire after 2 epochs (`>= 3` -> `>= 2`): grace periods still hold for C13", ["C13"],
   [(I, "global_epoch.wrapping_sub(self.epoch) >= 3", "global_epoch.wrapping_sub(self.epoch) >= 2")]),
- ("K02", "control", "links are written without a timestamp (believed redundant for C02, see DESIGN Appendix B)", ["C02", "C01"],
+ ("K02", "mutant", "links are written without a timestamp (first believed redundant and listed as a control; refuted by a seeded change, see DESIGN 12.5)", ["C02"],
   [(S, "            self.with_high_tag(global_epoch())\n", "            self\n")]),
- ("K03", "control", "link stamp ignored in the merge (believed redundant for C02)", ["C02"],
+ ("K03", "mutant", "link stamp ignored in the merge (first believed redundant and listed as a control; refuted, see DESIGN 12.5)", ["C02"],
   [(U, "modu.max(&[node_epoch as _, link_epoch as _, cnt_curr.epoch() as _]);", "modu.max(&[node_epoch as _, cnt_curr.epoch() as _]);\n                let _ = link_epoch;")]),
  ("M09", "mutant", "try_dealloc frees without re-checking the weak count", ["C03"],
   [(U, "        if State::from_raw((*ptr).state.load(Ordering::SeqCst)).weak() > 0 {\n            Self::decrement_weak(ptr, None);\n        } else {\n            Self::dealloc(ptr);\n        }", "        Self::dealloc(ptr);")]),
@@ -103,7 +103,7 @@ M = [
   [(E, "            data: self.data.wrapping_add(2),", "            data: self.data.wrapping_add(4),")]),
  ("M40", "mutant", "repin_without_collect publishes an epoch ahead of the global one when it lags", ["C14"],
   [(I, "            self.epoch.store(global_epoch, Ordering::Release);\n        }\n        global_epoch", "            self.epoch.store(global_epoch.successor().successor().pinned(), Ordering::Release);\n        }\n        global_epoch")]),
- ("M41", "mutant", "finalize does not hand the local bag over at thread exit", ["C15", "C20"],
+ ("M41", "control", "finalize does not hand the local bag over at thread exit (first listed as a mutant; the bag is a field of Local and runs when the Local is reclaimed, nothing is lost)", ["C15", "C20"],
   [(I, "            let guard = &self.pin();\n            self.push_to_global(guard);", "            let guard = &self.pin();\n            let _ = guard;")]),
  ("M42", "mutant", "Deferred stores closures of up to 32 bytes inline (buffer is 24)", ["C15"],
   [(DEF, "            if size <= mem::size_of::<Data>() && align <= mem::align_of::<Data>() {", "            if size <= mem::size_of::<Data>() + 8 && align <= mem::align_of::<Data>() {")]),
